@@ -269,9 +269,13 @@ def run(shard, ctx):
                 # random sample of the tag-byte edits (each tag byte position is represented)
                 rng.shuffle(cases)
                 always = [c for c in cases if c[0].startswith(("trunc", "empty"))]
-                fmts = [c for c in cases if c[0].startswith("format") and (int(c[0].split()[-1]) <= 40 or int(c[0].split()[-1]) >= 256)]
+                fmts, seen_words = [], set()
+                for c in cases:       # every format word once (3..40 and 256 upward), whichever file it was put into
+                    if c[0].startswith("format") and (int(c[0].split()[-1]) <= 40 or int(c[0].split()[-1]) >= 256) and c[0] not in seen_words:
+                        seen_words.add(c[0])
+                        fmts.append(c)
                 tags = [c for c in cases if "tag byte" in c[0]]
-                cases = always + fmts[:90] + tags[:shard["limit"]]
+                cases = always + fmts + tags[:shard["limit"]]
             for (what, blob) in cases:
                 with open(path, "wb") as f:
                     f.write(blob)
